@@ -9,6 +9,7 @@ package fakeapi
 import (
 	"context"
 	"errors"
+	"k8s.io/apimachinery/pkg/api/resource"
 	"strconv"
 	"sync"
 
@@ -61,6 +62,9 @@ type Client struct {
 	// InjectConflicts: a rejected status write is, arbitrarily, a plain error or an optimistic-locking
 	// Conflict (somebody else modified the object since it was read).
 	InjectConflicts bool
+	// CanonicalQuantities: stored pods hold their resource quantities in canonical form, as after a round
+	// trip through the API server.
+	CanonicalQuantities bool
 	// InjectNotFound: a rejected Delete is, arbitrarily, a plain error or a NotFound answer, and a rejected
 	// Create a plain error or an AlreadyExists answer.
 	InjectNotFound bool
@@ -373,7 +377,19 @@ func (c *Client) Create(ctx context.Context, obj client.Object, opts ...client.C
 				return apierrors.NewAlreadyExists(schema.GroupResource{Resource: "Pod"}, o.Name)
 			}
 		}
-		c.Pods = append(c.Pods, o.DeepCopy())
+		stored := o.DeepCopy()
+		if c.CanonicalQuantities {
+			// what the API server stores and returns: every quantity re-serialised in its canonical form
+			// ("0.5" -> "500m", "1024Mi" -> "1Gi")
+			for i := range stored.Spec.Containers {
+				for _, list := range []corev1.ResourceList{stored.Spec.Containers[i].Resources.Requests, stored.Spec.Containers[i].Resources.Limits} {
+					for name, q := range list {
+						list[name] = resource.MustParse(q.String())
+					}
+				}
+			}
+		}
+		c.Pods = append(c.Pods, stored)
 	case *corev1.PodTemplate:
 		for _, s := range c.PodTemplates {
 			if s.Namespace == o.Namespace && s.Name == o.Name {
